@@ -39,6 +39,13 @@ MUTANTS = [
  ("c05-empty-prefix", "C05", "C05.R8", "css/selector/selector.go", "func attributePrefixMatch(key, val string, n *html.Node, ignoreCase bool) bool {\n\tif val == \"\" { // an empty value matches nothing\n\t\treturn false\n\t}\n", "func attributePrefixMatch(key, val string, n *html.Node, ignoreCase bool) bool {\n"),
  ("c05-unescaped", "C05", "C05.R9", "css/selector/serialize.go", 'val = fmt.Sprintf(`"%s"`, escapeString(val))', 'val = fmt.Sprintf(`"%s"`, val)'),
  ("c05-sibling-swap", "C05", "C05.R6", "css/selector/selector.go", "return siblingMatch(t.first, t.second, true, n)\n\tcase '~':\n\t\treturn siblingMatch(t.first, t.second, false, n)", "return siblingMatch(t.first, t.second, false, n)\n\tcase '~':\n\t\treturn siblingMatch(t.first, t.second, true, n)"),
+ ("c09-inline-flex", "C09", "C09.R1", "html/boxes/build.go", "b = NewInlineFlexBox(style, (*html.Node)(element), pseudoType, content)", "b = NewFlexBox(style, (*html.Node)(element), pseudoType, content)"),
+ ("c09-pass-order", "C09", "C09.R2", "html/boxes/build.go", "\tbox = InlineInBlock(box)\n\tbox = BlockInInline(box)\n\treturn box", "\tbox = BlockInInline(box)\n\tbox = InlineInBlock(box)\n\treturn box"),
+ ("c11-ws-class", "C11", "C11.R1", "html/layout/inline.go", 'textWrap := ws == "normal" || ws == "pre-wrap" || ws == "pre-line"', 'textWrap := ws == "normal" || ws == "pre-line"'),
+ ("c11-ws-class2", "C11", "C11.R1", "html/boxes/build.go", 'newLineCollapse := styleWhiteSpace == "normal" || styleWhiteSpace == "nowrap"', 'newLineCollapse := styleWhiteSpace == "normal" || styleWhiteSpace == "nowrap" || styleWhiteSpace == "pre-line"'),
+ ("c12-force-verso", "C12", "C12.R1", "html/layout/blocks.go", 'return pageBreak == "page" || pageBreak == "left" || pageBreak == "right" || pageBreak == "recto" || pageBreak == "verso"\n}', 'return pageBreak == "page" || pageBreak == "left" || pageBreak == "right" || pageBreak == "recto"\n}'),
+ ("c12-choice", "C12", "C12.R1", "html/layout/blocks.go", '\t\t{"page", "avoid-page"}:     true,\n', ''),
+ ("c12-nth-zero", "C12", "C12.R2", "html/tree/style.go", "\t\tif a == 0 {\n\t\t\treturn offset == 0\n\t\t} else {\n\t\t\treturn offset/a >= 0 && offset%a == 0\n\t\t}", "\t\treturn offset/a >= 0 && offset%a == 0"),
  # behaviour-preserving edits: must stay silent
  ("ok-rename-local", "C03", "", "html/tree/style.go", "oldWeight := style[decl.Name].weight\n\t\t\tif oldWeight.isNone() || oldWeight.Less(we) {", "previous := style[decl.Name].weight\n\t\t\tif previous.isNone() || previous.Less(we) {"),
  ("ok-early-continue", "C03", "", "html/tree/style.go", "\t\t\tif oldWeight.isNone() || oldWeight.Less(we) {\n\t\t\t\tstyle[decl.Name] = weigthedValue{weight: we, value: decl.Value, shortand: decl.Shortand}\n\t\t\t}\n\t\t}\n\t}\n\n\t// First, add", "\t\t\tif !(oldWeight.isNone() || oldWeight.Less(we)) {\n\t\t\t\tcontinue\n\t\t\t}\n\t\t\tstyle[decl.Name] = weigthedValue{weight: we, value: decl.Value, shortand: decl.Shortand}\n\t\t}\n\t}\n\n\t// First, add"),
